@@ -134,8 +134,27 @@ def gen_seeds() -> str:
         summ = esc(meta.get("summary", ""))[:380]
         note = esc(meta.get("verif_note", ""))
         r = res.get(d.name, {})
+        if not r and meta.get("confirmed_by_coordinator"):
+            r = {"result": meta["confirmed_by_coordinator"].get("first_check_result", "").replace("replay=replays/", "replay=")}
         rows.append(f"| `{d.name}` | {d.name[:3]} | {summ} | {esc(r.get('result', 'not re-run'))[:120]}{(' — ' + note) if note else ''} |")
     return "\n".join(rows) + f"\n\n{len(rows) - 2} seeded changes; results recorded by `tools/run_seeds.py --record` at /repo {res.get('_head', '?')}.\n"
+
+
+def gen_benign() -> str:
+    rp = ROOT / "benign" / "RESULTS.json"
+    res = json.loads(rp.read_text()) if rp.exists() else {}
+    rows = ["| harmless change | quiet (rc=0) | `no-failing-input-found` (tie/translator cannot see through the rewrite) | false alarms (concrete replay) | harness errors |", "|---|---|---|---|---|"]
+    tot = {"quiet": 0, "no-input": 0, "FALSE-ALARM": 0, "harness": 0}
+    for name in sorted(k for k in res if not k.startswith("_")):
+        by: dict[str, list[str]] = {}
+        for prop, v in sorted(res[name].items()):
+            by.setdefault(v.split()[0], []).append(prop)
+        for k in tot:
+            tot[k] += len(by.get(k, []))
+        rows.append(f"| `{name}` | {len(by.get('quiet', []))} | {' '.join(by.get('no-input', [])) or '–'} | {' '.join(by.get('FALSE-ALARM', [])) or '–'} | {' '.join(by.get('harness', [])) or '–'} |")
+    return ("\n".join(rows) + f"\n\n{len(rows) - 2} harmless changes × the claimed properties: {tot['quiet']} quiet, {tot['no-input']} "
+            f"`no-failing-input-found`, {tot['FALSE-ALARM']} false alarms, {tot['harness']} harness errors "
+            f"(`tools/run_benign.py --record` at /repo {res.get('_head', '?')}).\n")
 
 
 def gen_stats() -> str:
@@ -166,7 +185,7 @@ def gen_stats() -> str:
 def main() -> int:
     p = ROOT / "DESIGN.md"
     s = p.read_text()
-    for key, fn in (("STATS", gen_stats), ("PROPS", gen_props), ("FIXED", gen_fixed), ("OPEN", gen_open), ("SEEDS", gen_seeds)):
+    for key, fn in (("STATS", gen_stats), ("PROPS", gen_props), ("FIXED", gen_fixed), ("OPEN", gen_open), ("SEEDS", gen_seeds), ("BENIGN", gen_benign)):
         a, b = f"<!-- GEN:{key} begin -->", f"<!-- GEN:{key} end -->"
         if a not in s or b not in s:
             print(f"marker {key} missing", file=sys.stderr)
